@@ -113,7 +113,7 @@ def build(u):
                           pre_body="broadcast use axiom_str_ext;\nproof { lits_modes(); }",
                           contract="""
         ensures (r matches Ok(m) ==> m == mode_of(s@) && (m == AuthorizationMode::Disabled ==> lower(s@) == "disabled"@)),
-                (r is Err ==> mode_of(s@) == AuthorizationMode::Disabled),   // @C02.AuthorizationMode_from_str.three_modes_case_insensitive
+                (r is Err ==> mode_of(s@) == AuthorizationMode::Disabled),   // @C02+C11+C01.AuthorizationMode_from_str.three_modes_case_insensitive
 """)
             u.take(ar, "ComputedAuthorizationItem", "struct")
             FAI(u, ar)
